@@ -263,6 +263,23 @@ func WriteFP(dir string, variantPkg, basePkg, src string) (string, error) {
 	return p, os.WriteFile(p, []byte(src), 0o644)
 }
 
+// WriteFPAt is WriteFP with the package directory chosen by the caller (relDir below the
+// module root, e.g. "depot/store.v1"): the import path of the copy is example.com/nx/<relDir>.
+func WriteFPAt(dir string, variantPkg, relDir, basePkg, src string) (string, error) {
+	d := filepath.Join(dir, "fp", variantPkg, filepath.FromSlash(relDir))
+	if err := os.MkdirAll(d, 0o755); err != nil {
+		return "", err
+	}
+	if err := os.WriteFile(filepath.Join(dir, "fp", variantPkg, "go.mod"), []byte("module example.com/nx\n\ngo 1.24\n"), 0o644); err != nil {
+		return "", err
+	}
+	if strings.HasPrefix(src, "package "+variantPkg+"\n") {
+		src = "package " + basePkg + "\n" + src[len("package "+variantPkg+"\n"):]
+	}
+	p := filepath.Join(d, basePkg+".go")
+	return p, os.WriteFile(p, []byte(src), 0o644)
+}
+
 // Starred returns a copy of f (as package pkg) in which every literal the default policy
 // documents as abstracted is replaced by a canonical one (edit.CanonLiterals).
 func Starred(f *gen.File, pkg string) (*gen.File, error) {
